@@ -607,7 +607,8 @@ def _compare(chk, names, results, outdir):
             runs[k][(r["seed"], "twice")] = ("error", r["error"])
     found = {}        # key -> payload of first occurrence + list of entries
     skipped = {}
-    for (entry, lang), rr in sorted(runs.items()):
+    # corpus entries first, so that the example recorded for a kind of difference is a plain corpus form
+    for (entry, lang), rr in sorted(runs.items(), key=lambda kv: (kv[0][0].startswith(("c12_", "demo_", "gen_")), kv[0])):
         ref_key = (0, "fresh")
         ref = rr.get(ref_key)
         vals = list(rr.values())
